@@ -206,8 +206,10 @@ Definition gated_script (n clen : Z) (acts : list action) : list action :=
 (* ------------------------------------------------------------------ bypasses of the timeout (:31-38, :55-58) *)
 (* duration <= 0 (TimeoutHandler returns next) or `Upgrade: websocket`: the handler runs on the caller's
    goroutine directly against the real writer; net/http-style writer: every call is logged as is,
-   a first WriteHeader outside [100,599] panics in the real writer as well (net/http checks the code only
-   after the superfluous-call test, so once something is committed any code is just ignored) *)
+   a first WriteHeader outside [100,999] panics in the real writer (net/http's own checkWriteHeaderCode only
+   insists on three digits, and it looks at the code only after the superfluous-call test, so once something
+   is committed any code is just ignored) *)
+Definition valid_code_nethttp (c : Z) : bool := (100 <=? c) && (c <=? 999).
 Definition direct_action (w : rwriter) (a : action) : rwriter * outcome :=
   match a with
   | SetHeader k v => (mkrw (hset k v (rw_h w)) (rw_log w), OOk)
@@ -216,7 +218,7 @@ Definition direct_action (w : rwriter) (a : action) : rwriter * outcome :=
   | WriteHeader c =>
       match rw_log w with
       | _ :: _ => (rw_write_header c w, OOk)            (* superfluous: reaches the writer, ignored by it *)
-      | [] => if valid_code c then (rw_write_header c w, OOk) else (w, OPanic)
+      | [] => if valid_code_nethttp c then (rw_write_header c w, OOk) else (w, OPanic)
       end
   | Write bs => (rw_write bs w, OWrote (List.length bs))
   | PanicA => (w, OPanic)
